@@ -538,9 +538,14 @@ func (c *Change) lowLevelPerform(as *Assumptions) error {
 // makes it difficult to create the full list of changes and then
 // clean-up repeated mountpoints. In any case using this is still
 // needed to handle mount namespaces created by older snapd versions.
+//
+// Synthetic entries (the mimic) are tracked separately from the regular
+// entries: a kept synthetic bind mount must not make a desired entry with the
+// same mount point and type look as if it was already there.
 type mountEntryId struct {
-	dir    string
-	fsType string
+	dir       string
+	fsType    string
+	synthetic bool
 }
 
 // neededChanges is the real implementation of NeededChanges
@@ -612,7 +617,7 @@ func neededChanges(currentProfile, desiredProfile *osutil.MountProfile) []*Chang
 		}
 		skipDir = "" // reset skip prefix as it no longer applies
 
-		mountId := mountEntryId{dir, current[i].Type}
+		mountId := mountEntryId{dir, current[i].Type, current[i].XSnapdSynthetic()}
 		if current[i].XSnapdOrigin() == "rootfs" {
 			// This is the rootfs setup by snap-confine, we should not touch it
 			logger.Debugf("reusing rootfs")
@@ -661,7 +666,7 @@ func neededChanges(currentProfile, desiredProfile *osutil.MountProfile) []*Chang
 	// Unmount entries not reused in reverse to handle children before their parent.
 	unmountOrder := unsortedCurrent
 	for i := len(unmountOrder) - 1; i >= 0; i-- {
-		if reuse[mountEntryId{unmountOrder[i].Dir, unmountOrder[i].Type}] {
+		if reuse[mountEntryId{unmountOrder[i].Dir, unmountOrder[i].Type, unmountOrder[i].XSnapdSynthetic()}] {
 			changes = append(changes, &Change{Action: Keep, Entry: unmountOrder[i]})
 		} else {
 			var entry osutil.MountEntry = unmountOrder[i]
@@ -678,7 +683,7 @@ func neededChanges(currentProfile, desiredProfile *osutil.MountProfile) []*Chang
 
 	var desiredNotReused []osutil.MountEntry
 	for _, entry := range desired {
-		if !reuse[mountEntryId{entry.Dir, entry.Type}] {
+		if !reuse[mountEntryId{entry.Dir, entry.Type, entry.XSnapdSynthetic()}] {
 			desiredNotReused = append(desiredNotReused, entry)
 		}
 	}
